@@ -229,6 +229,13 @@ def implementations(case, ctx):
         _unchanged(ctx, fa, snap_f, "transform / transform_w_scipy_fft")
         ctx.close(t1, t1f, RTOL * na, "transform(%s) vs transform(float ndarray)" % case["ra"].get("as"))
         ctx.close(t2, t2f, RTOL * na, "transform_w_scipy_fft(%s) vs the float ndarray" % case["ra"].get("as"))
+        if isinstance(arg, np.ndarray) and arg.dtype.kind == "i" and np.max(np.abs(a)) <= 32767:
+            # raw digitiser counts are usually stored in a small integer dtype
+            small = np.array(arg, dtype=np.int16)
+            ctx.cls("as=int16")
+            ctx.close(_check_array(ctx, ctx.lib(sw.transform, small), n, "transform(int16)"), t1f, RTOL * na, "transform(int16) vs transform(float ndarray)")
+            ctx.close(_check_array(ctx, ctx.lib(sw.transform_w_scipy_fft, small), n, "transform_w_scipy_fft(int16)"), t2f, RTOL * na,
+                      "transform_w_scipy_fft(int16) vs the float ndarray")
     # linearity
     al, be = float(case["alpha"]), float(case["beta"])
     comb = al * a + be * b
@@ -281,7 +288,8 @@ def _dom_cases(draw):
     kmax = (3 * n) // 8  # floor(0.75 * n/2)
     k0 = draw(st.one_of(st.integers(2, kmax), st.sampled_from([2, kmax]), st.integers(max(2, kmax - 3), kmax)))
     return {"len": length, "k0": k0, "phase": draw(st.floats(0.0, 2 * math.pi, allow_nan=False)),
-            "amp": draw(gen.log_uniform(1e-6, 1e6)), "dt": draw(gen.dts(1e-4, 10.0)),
+            "amp": draw(gen.log_uniform(1e-6, 1e6)), "unit": draw(st.sampled_from([0, 0, 0, -600, -800, 560, 800])),
+            "dt": draw(gen.dts(1e-4, 10.0)),
             "obj": draw(st.sampled_from(["acc", "sig"])), "mag": draw(st.booleans())}
 
 
@@ -304,6 +312,9 @@ def dominant_frequency(case, ctx):
     dt = float(case["dt"])
     t = np.arange(length)
     x = float(case["amp"]) * np.cos(2 * math.pi * ((k0 * t) % n) / n + float(case["phase"]))
+    if case.get("unit"):
+        x = x * 2.0 ** case["unit"]  # the same record in extreme units (about 1e-240 .. 1e240): exact change of unit
+        ctx.cls("extreme-unit")
     ctx.cls(gen.size_class(length), "odd" if length % 2 else "even", "pow2" if _is_pow2(n) else "non-pow2",
             "k0=2" if k0 == 2 else None, "k0=kmax" if k0 == kmax else None, "k0>n/4" if 4 * k0 > n else "k0<=n/4",
             "obj=" + case["obj"])
